@@ -343,10 +343,11 @@ impl BackwardEngine {
         self.config.max_solutions = usize::MAX;
 
         // Execute the underlying pattern query to get all solutions
-        let result = self.query(&agg_query.pattern, facts)?;
+        let result = self.query(&agg_query.pattern, facts);
 
-        // Restore original max_solutions
+        // Restore original max_solutions (also when the pattern query failed)
         self.config.max_solutions = original_max;
+        let result = result?;
 
         // Apply aggregation to solutions
         let value = apply_aggregate(&agg_query.function, &result.solutions)?;
